@@ -194,7 +194,7 @@ class PipeProperty:
     fields = pipefam.OBS_KEYS          # observations compared with the model
     stages = None                      # generator alphabet (None = all)
     weights = None
-    exhaustive_depth = {'quick': 2, 'thorough': 2}
+    exhaustive_depth = {'quick': 2, 'thorough': 3}
     n_random = {'quick': 2500, 'thorough': 20000}
     max_len = {'quick': 6, 'thorough': 10}
     required_ops = ()                  # generator self-test: ops that must occur at least `floor` times
@@ -226,12 +226,7 @@ def run(pp, rep):
     g = G.Gen(rng, max_len=pp.max_len[tier], stages=pp.stages, weights=pp.weights)
     rnd = [g.pipeline() for _ in range(pp.n_random[tier])]
     cases = [p for p in corpus + ex + rnd if pp.relevant(p)]
-    reqs = [pipefam.make_request(p) for p in cases]
-    for i, r in enumerate(reqs):
-        r['source_mode'] = pp.source_modes[i % len(pp.source_modes)]
     procs = min(16, os.cpu_count() or 1)
-    impl_obs = observe_many(reqs, procs)
-    model_obs = model.ask(reqs)
 
     dist = {}
     depth_hist = {}
@@ -242,32 +237,51 @@ def run(pp, rep):
     oracle_fails = []
     harness_errors = 0
     mode_of = {}
-    for req, a, b in zip(reqs, impl_obs, model_obs):
-        p = req['p']
-        mode_of[id(p)] = req.get('source_mode', 'pickle')
-        if 'harness_error' in a:
-            harness_errors += 1
-            continue
-        if a.get('hang'):
-            oracle_fails.append((p, 'no_termination', {'timeout_s': OBS_TIMEOUT_S}, a))
-            continue
-        for o in set(G.ops_of(p)):
-            dist[o] = dist.get(o, 0) + 1
-        dp = G.depth_of(p)
-        depth_hist[dp] = depth_hist.get(dp, 0) + 1
-        if a.get('build') == 'ok':
-            n_built += 1
-            e = a['iter']['err']
-            err_hist[str(e)] = err_hist.get(str(e), 0) + 1
-            if dp >= 1:
-                distinct.add(json.dumps(p, sort_keys=True))
-        else:
-            err_hist['build:' + str(a.get('build'))] = err_hist.get('build:' + str(a.get('build')), 0) + 1
-        d = restrict(pipefam.diff(a, b), pp.fields)
-        if d:
-            disagreements.append((p, d))
-        for clause, detail in pp.oracle(p, a):
-            oracle_fails.append((p, clause, detail, a))
+    samples = []
+    CHUNK = 20000                      # bounds the memory of a depth-3 enumeration (~200 000 cases)
+    for c0 in range(0, len(cases), CHUNK):
+        reqs = [pipefam.make_request(p) for p in cases[c0:c0 + CHUNK]]
+        for i, r in enumerate(reqs):
+            r['source_mode'] = pp.source_modes[(c0 + i) % len(pp.source_modes)]
+        impl_obs = observe_many(reqs, procs)
+        model_obs = model.ask(reqs)
+        if c0 == 0:
+            for req, a, b in list(zip(reqs, impl_obs, model_obs))[len(corpus) + 40:len(corpus) + 43]:
+                samples.append({'request': req, 'implementation': {k: a.get(k) for k in ('build', 'len', 'keys', 'iter')},
+                                'model': {k: b.get(k) for k in ('build', 'len', 'keys', 'iter')}})
+        for req, a, b in zip(reqs, impl_obs, model_obs):
+            p = req['p']
+            if 'harness_error' in a:
+                harness_errors += 1
+                continue
+            if a.get('hang'):
+                mode_of[id(p)] = req.get('source_mode', 'pickle')
+                oracle_fails.append((p, 'no_termination', {'timeout_s': OBS_TIMEOUT_S}, a))
+                continue
+            for o in set(G.ops_of(p)):
+                dist[o] = dist.get(o, 0) + 1
+            dp = G.depth_of(p)
+            depth_hist[dp] = depth_hist.get(dp, 0) + 1
+            if a.get('build') == 'ok':
+                n_built += 1
+                e = a['iter']['err']
+                err_hist[str(e)] = err_hist.get(str(e), 0) + 1
+                if dp >= 1:
+                    distinct.add(hash(json.dumps(p, sort_keys=True)))
+            else:
+                err_hist['build:' + str(a.get('build'))] = err_hist.get('build:' + str(a.get('build')), 0) + 1
+            d = restrict(pipefam.diff(a, b), pp.fields)
+            if d and len(disagreements) < 500:
+                mode_of[id(p)] = req.get('source_mode', 'pickle')
+                disagreements.append((p, d))
+            for clause, detail in pp.oracle(p, a):
+                fid = pp.known(p, a, clause, detail, findings)
+                if fid is not None:
+                    rep.known(fid, next((f['what'] for f in findings if f['id'] == fid), ''))
+                elif len(oracle_fails) < 500:
+                    mode_of[id(p)] = req.get('source_mode', 'pickle')
+                    oracle_fails.append((p, clause, detail, a))
+        del impl_obs, model_obs, reqs
     if harness_errors:
         raise common.Infra(f'{harness_errors} harness errors while observing the implementation')
 
@@ -354,10 +368,6 @@ def run(pp, rep):
                 rep.violation(replay, no_input=True)
             break
 
-    samples = []
-    for req, a, b in list(zip(reqs, impl_obs, model_obs))[len(corpus) + 40:len(corpus) + 43]:
-        samples.append({'request': req, 'implementation': {k: a.get(k) for k in ('build', 'len', 'keys', 'iter')},
-                        'model': {k: b.get(k) for k in ('build', 'len', 'keys', 'iter')}})
     rep.coverage.update({
         'programs': len(cases),
         'disagreements_checked': len(cases),
